@@ -28,7 +28,8 @@ META = {
              'nation compressed_segmentation files decoded from the format'
              ' description, a warm-up on a uint32 segmentation in the same'
              ' process.'
-             " Round 12: regular label structure; the library function after an earlier sharded conversion in the same process, default options omitted."),
+             " Round 12: regular label structure; the library function after an earlier sharded conversion in the same process, default options omitted."
+             " Round 16: destination infos listing a subset / another order of the source's scales; sub-check option_grid."),
     "trusted_base": ["vlib/refs/dtype_ref.py", "vlib/httpd.py",
                      "in-memory source arrays"],
 }
@@ -105,6 +106,9 @@ def cases(draw):
             # same options object - or with none at all when the defaults
             # apply
             "via": draw(st.sampled_from(["cli", "cli", "api"])),
+            "dst_scales": draw(st.sampled_from(
+                ["same", "same", "same", "drop_first", "reversed",
+                 "last_only"])),
             "seed": draw(st.integers(0, 2 ** 31))}
 
 
@@ -254,6 +258,16 @@ def check_case(ctx, case):
             dinfo = sinfo
         else:
             dinfo = build_info(case, "dst")
+            # the destination description is an input of its own: it may
+            # list only some of the source's scales, or list them in another
+            # order (documented: "the 20um and 40um scales can be removed")
+            how = case.get("dst_scales", "same")
+            if how == "drop_first" and len(dinfo["scales"]) > 1:
+                dinfo["scales"] = dinfo["scales"][1:]
+            elif how == "reversed":
+                dinfo["scales"] = dinfo["scales"][::-1]
+            elif how == "last_only":
+                dinfo["scales"] = dinfo["scales"][-1:]
             os.makedirs(ddir)
             with open(os.path.join(ddir, "info"), "w") as f:
                 json.dump(dinfo, f)
@@ -319,7 +333,10 @@ def check_case(ctx, case):
         if pio2.info["data_type"] != ddt:
             ctx.fail("destination info has data_type %s, expected %s" % (
                 pio2.info["data_type"], ddt))
-        for i, (sc0_, a) in enumerate(zip(dinfo["scales"], arrays)):
+        by_key = {"s%d" % k: arr for k, arr in enumerate(arrays)}
+        for sc0_ in dinfo["scales"]:
+            i = int(sc0_["key"][1:])
+            a = by_key[sc0_["key"]]
             for sc_ in grids(sc0_):
                 try:
                     got = ds.read_scale(pio2, sc_, ddt, case["channels"])
@@ -441,6 +458,9 @@ def grid_cases():
                                     "shard_enc": ("raw", "gzip")[k % 2],
                                     "block": [2, 2, 2], "dblock": [2, 1, 2],
                                     "dst_spelling": "plain", "via": via,
+                                    "dst_scales": ("same", "drop_first",
+                                                   "reversed",
+                                                   "last_only")[k % 4],
                                     "seed": k})
     return out
 
